@@ -30,6 +30,6 @@ if os.path.isdir(nk):
         note = os.path.join(nk, name, "NOTE.md")
         if os.path.exists(note):
             out.append("* `not-kept/%s`: %s" % (name, open(note).read().strip().replace("\n", " ")))
-    out += ["* two further proposals repeated a mechanism that was already kept (`C02` fourth round = `C18-r3`, `C13` fifth round = `C14-r4`) and were dropped.", ""]
+    out += ["* three further proposals repeated a mechanism that was already kept (`C02` fourth round = `C18-r3`, `C13` fifth round = `C14-r4`, `C02` eighth round = `C01-r6`) and were dropped.", ""]
 open(os.path.join(d, "README.md"), "w").write("\n".join(out))
 print("\n".join(out[9:9 + len(rows) + 2]))
